@@ -146,6 +146,18 @@ func genNtC(rt *rapid.T, maxOps int, allowFailAcquire bool) c25History {
 	protos := rapid.SampledFrom([][]string{
 		{"lsq"}, {"txmon"}, {"ltxsub"}, {"lsq", "txmon"}, {"lsq", "txmon", "ltxsub"}, {"lsq", "txmon", "ltxsub"},
 	}).Draw(rt, "protocols")
+	focus := false
+	if g > sendQueueCap && rapid.IntRange(0, 3).Draw(rt, "burst_focus") != 0 {
+		// all callers of the burst on one protocol, so that more of them than the
+		// outbound queue holds really are in flight on it at the same time
+		protos = [][]string{{"lsq"}, {"txmon"}, {"txmon"}, {"ltxsub"}}[rapid.IntRange(0, 3).Draw(rt, "burst_proto")]
+		maxOps = 4 // callers that come back for more race with the ones still queued
+		focus = true
+		if protos[0] == "txmon" {
+			// the snapshot is acquired before the burst starts
+			h.Prologue = append(h.Prologue, c25Op{Proto: "txmon", Kind: "acquire"})
+		}
+	}
 	has := func(p string) bool {
 		for _, x := range protos {
 			if x == p {
@@ -205,6 +217,11 @@ func genNtC(rt *rapid.T, maxOps int, allowFailAcquire bool) c25History {
 			case "txmon":
 				c := rapid.IntRange(0, 9).Draw(rt, "txmon_kind")
 				switch {
+				case focus && c == 9:
+					o = c25Op{Proto: "txmon", Kind: "sizes"}
+				case focus:
+					// only calls a client could let run side by side
+					o = c25Op{Proto: "txmon", Kind: "hastx", Arg: rapid.SampledFrom([]int{4, 4, 4, 8, 9, 5, -1}).Draw(rt, "hastx_burst")}
 				case w == monOwner && c == 0 && monSince:
 					o = c25Op{Proto: "txmon", Kind: "release"}
 					monSince = false
@@ -213,8 +230,12 @@ func genNtC(rt *rapid.T, maxOps int, allowFailAcquire bool) c25History {
 					monSince = true
 				case c <= 5:
 					o = c25Op{Proto: "txmon", Kind: "nexttx"}
+				case g > sendQueueCap && c <= 7:
+					// burst: many HasTx calls at once whose answers differ within the
+					// first snapshot (tx (1,0) is in it, the others are not)
+					o = c25Op{Proto: "txmon", Kind: "hastx", Arg: rapid.SampledFrom([]int{4, 4, 4, 8, 9, 5, -1}).Draw(rt, "hastx_burst")}
 				case c <= 8:
-					a := rapid.IntRange(1, 6).Draw(rt, "hastx_s")*4 + rapid.IntRange(0, 2).Draw(rt, "hastx_i")
+					a := rapid.SampledFrom([]int{1, 1, 2, 2, 3, 3, 4, 5, 6}).Draw(rt, "hastx_s")*4 + rapid.SampledFrom([]int{0, 0, 1, 2}).Draw(rt, "hastx_i")
 					switch rapid.IntRange(0, 9).Draw(rt, "hastx_variant") {
 					case 0:
 						a = rapid.SampledFrom([]int{-1, -2, -3, -7}).Draw(rt, "hastx_special") // all-zero, empty, unknown ids
